@@ -443,8 +443,18 @@ func buildServer(c *cfgT, reg *registry, extra ...wire.OptionFn) (*wire.Server, 
 				cols = append(cols, wire.Column{Name: string(cc.name), Table: int32(uint32(cc.table)), AttrNo: int16(uint16(cc.attr)), Oid: oid.Oid(uint32(cc.oid)), Width: int16(uint16(cc.width))})
 			}
 			var po []oid.Oid
+			allZero := true
 			for _, p := range s.poids {
 				po = append(po, oid.Oid(uint32(p)))
+				if p != 0 {
+					allZero = false
+				}
+			}
+			if c.ppDeclare && allZero {
+				// the documented idiom: WithParameters(ParseParameters(query)) — the very slice the library returned
+				if pp := wire.ParseParameters(query); len(pp) == len(po) {
+					po = pp
+				}
 			}
 			fn := func(ctx context.Context, w wire.DataWriter, params []wire.Parameter) error {
 				r := reg.of(ctx)
